@@ -506,10 +506,10 @@ def object_programs(rng, quick):
     (the first one has exhausted / moved its cursor), rendered with and without the explicit .iter()"""
     progs = []
     for kind in OKINDS:
-        for size in ([4, 0] if quick else [4, 0, 1, 6]):
+        for size in ([4, 0] if quick else [4, 0, 1]):
             names = list(consumers(rng).keys())
             for c1 in names:
-                seconds = rng.sample(names, 2 if quick and size else (1 if quick else 5))
+                seconds = rng.sample(names, 2 if quick and size else (1 if quick else 3))
                 for c2 in seconds:
                     cs = consumers(rng)
                     E = ("obj", 0)
@@ -517,6 +517,80 @@ def object_programs(rng, quick):
                     for direct in ([rng.random() < 0.7] if quick else [True, False]):
                         progs.append({"fun": rng.random() < 0.5, "loc": rng.random() < 0.3, "dir": direct, "body": body,
                                       "stream": "objects", "consumers": (kind, c1, c2)})
+    return progs
+
+
+def field_programs(rng, quick):
+    """iterator instances carrying a callable FIELD `next` (wrapping the class's own next: scaling, limiting, counting)
+    or a field `iter`, consumed by every consumer; S: every consumer sees the sequence the FIELD produces.  The `@` line
+    is the number of calls the field received (compared with the Mechanism only)."""
+    progs = []
+    names = list(consumers(rng).keys())
+    for kind in ["scaled", "limited", "counted", "fielditer"]:
+        for size in ([3, 0] if quick else [3, 0, 1]):
+            for c1 in names:
+                for c2 in rng.sample(names, 1 if quick else 3):
+                    cs = consumers(rng)
+                    E = ("obj", 0)
+                    tail = [("pcalls", 0)] if kind in WRAPPED else []
+                    body = [g_obj(rng, 0, kind, size)] + cs[c1](E) + tail + cs[c2](E) + tail
+                    for direct in ([rng.random() < 0.5] if quick else [True, False]):
+                        progs.append({"fun": rng.random() < 0.5, "loc": rng.random() < 0.3, "dir": direct, "body": body,
+                                      "stream": "field_next", "consumers": (kind, c1, c2)})
+    return progs
+
+
+RUN_SIZES = [0, 1, 63, 64, 65, 200, 1000]
+RUN_LENGTHS = [0, 1, 59, 60, 61, 64, 100, 999]
+
+
+def long_run_programs(rng, quick):
+    """sources of 0..1000 elements under filters that reject runs of 0..999 CONSECUTIVE elements (at the start, in the
+    middle, at the end, everything), mapping functions of call depth 1..3, chains 1..4 adapters deep, also consumed from
+    inside a block that is already 30 / 48 call frames deep.  S: the same sequence as for short data - the number of
+    rejected elements costs no call frames."""
+    progs = []
+    for n in RUN_SIZES * (1 if quick else 3):
+        for r in RUN_LENGTHS:
+            if r > n and not (r == 1 and n == 0):
+                continue
+            for where in ["start", "middle", "end", "all"]:
+                if where == "all" and r not in (0, 64, 999) and r != n:
+                    continue
+                if quick and rng.random() < (0.75 if n < 63 or r < 59 else 0.45):
+                    continue
+                lo = {"start": 0, "middle": (n - r) // 2, "end": max(0, n - r), "all": 0}[where]
+                hi = n if where == "all" else lo + r
+                kind = rng.choice(["range", "count", "vec", "str"] if n <= 200 else ["range", "count"])
+                if kind == "range":
+                    src, pred = ("range", 0, n), ("notin", lo, hi)
+                elif kind == "count":
+                    src, pred = ("count", 0, n), ("notin", lo, hi)
+                elif kind == "vec":
+                    src, pred = ("vec", list(range(n))), ("notin", lo, hi)
+                else:
+                    src, pred = ("str", "b" * lo + "a" * (hi - lo) + "b" * (n - hi)), ("ne", "a")
+                numeric = kind != "str"
+                f = rng.choice([("deepfn", d, 0) for d in (1, 2, 3)] + [("add", 0)])
+                shapes = {
+                    "filter": ("filter", pred, src),
+                    "filter.map": ("map", f, ("filter", pred, src)),
+                    "map.filter": ("filter", pred, ("map", f, src)),
+                    "filter.filter": ("filter", pred, ("filter", ("true",), src)),
+                    "map.filter.map.filter": ("filter", ("true",), ("map", f, ("filter", pred, ("map", f, src)))),
+                }
+                shape = rng.choice(list(shapes))
+                E = shapes[shape]
+                cons = [("reduce", "count", 0, E), ("collect", E) if n - (hi - lo) <= 80 else ("reduce", "sum", 0 if numeric else "", E),
+                        ("for", E, [("if", 0, 1, [("pvar", 0)]), ("if", 0, 2, [("pvar", 0)])]), ("pcnt", 0)]
+                deep = rng.choice([0, 0, 30, 48])
+                if deep and shape != "map.filter.map.filter":
+                    body = [("descend", deep, cons)]
+                else:
+                    deep = 0
+                    body = cons
+                progs.append({"fun": rng.random() < 0.5, "loc": False, "dir": rng.random() < 0.5, "body": body, "stream": "long_runs",
+                              "fuel": max(150, n + 100), "notrace": True, "long": (n, r, where, kind, shape, deep)})
     return progs
 
 
@@ -667,7 +741,7 @@ def directed(rng, quick):
             progs.append({"fun": True, "loc": True, "body": body, "stream": "locals"})
             if ctl != "return":
                 progs.append({"fun": False, "loc": True, "body": body, "stream": "locals"})
-    return progs + object_programs(rng, quick) + pressure_programs(rng, quick)
+    return progs + object_programs(rng, quick) + pressure_programs(rng, quick) + field_programs(rng, quick) + long_run_programs(rng, quick)
 
 
 # ------------------------------------------------------------------------------------------
@@ -755,6 +829,7 @@ def judge(ctx, p, stats):
     wire = wire_of(p)
     if "!FUEL" in p["mech"]:
         stats["model_fuel"] += 1
+        stats.setdefault("fuel_wires", []).append(wire[:300])
         return
     res_ok = p["impl_res"][0] == "ok"
     m_ok = res_ok and p["impl"] == p["mech"]
@@ -802,7 +877,7 @@ def reference_compare(ctx, progs):
         st["compared"] += 1
         if ref == p["impl"] and p["impl_res"][0] == "ok":
             st["equal"] += 1
-        elif p["impl"] == p["mech"] and (p["spec"] == ["SKIP"] or p["impl"] == p["spec"]):
+        elif p["impl"] == p["mech"] and (p["spec"] == ["SKIP"] or public(p["impl"]) == p["spec"]):
             # impl, M and S agree with each other: the third party is the odd one out
             st["disagrees_with_impl_M_S"] += 1
             if st["disagrees_with_impl_M_S"] <= 3:
@@ -885,7 +960,8 @@ def shrink(ctx, p):
         for b in shrink_body(cur["body"]):
             if not b or (has(b, "return") and not cur["fun"]):
                 continue
-            cands.append({"fun": cur["fun"], "loc": cur["loc"], "dir": cur.get("dir", False), "body": b, "stream": cur["stream"]})
+            cands.append({"fun": cur["fun"], "loc": cur["loc"], "dir": cur.get("dir", False), "body": b, "stream": cur["stream"],
+                          "fuel": cur.get("fuel", 150), "notrace": cur.get("notrace", False)})
             if len(cands) >= min(8, budget):
                 break
         if not cands:
@@ -897,7 +973,7 @@ def shrink(ctx, p):
         except Exception:
             break
         for c in done:
-            if c["spec"] != ["SKIP"] and (c["impl_res"][0] != "ok" or c["impl"] != c["spec"]):
+            if c["spec"] != ["SKIP"] and (c["impl_res"][0] != "ok" or public(c["impl"]) != c["spec"]):
                 c["facts"] = facts(c["body"])
                 if known_class_of(c) == known_class_of(p):
                     cur = c
@@ -921,12 +997,12 @@ def run(ctx):
         rec = yvlib.run_harness(ctx.harness("debug"), ["trace - 400000 " + hx(text)])[0]
         nil, pop = opcode_numbers()
         ml = unlines(mech)
-        if unlines(spec) != ["SKIP"] and (rec.result[0] != "ok" or rec.output != unlines(spec)):
+        if unlines(spec) != ["SKIP"] and (rec.result[0] != "ok" or public(rec.output) != unlines(spec)):
             ctx.violation("printed sequence differs from the Spec", input=text, expected=unlines(spec), actual=rec.output, wire=w)
-        if rel(marker_heights(rec, nil, pop)) != rel([int(l[1:]) for l in ml if l.startswith("#")]):
+        if marker_heights(rec, nil, pop) != rel([int(l[1:]) for l in ml if l.startswith("#")]):
             ctx.violation("iteration state left on the VM stack", input=text, wire=w)
         return
-    progs = directed(rng, quick) + [g_program(rng) for _ in range(350 if quick else 3000)]
+    progs = directed(rng, quick) + [g_program(rng) for _ in range(350 if quick else 2500)]
     for p in progs:
         p.setdefault("dir", rng.random() < 0.5)
         p["facts"] = facts(p["body"])
@@ -951,7 +1027,7 @@ def run(ctx):
     if fresh:
         v = fresh[0]
         p0 = next((p for p in done if p["src"] == v["input"]), None)
-        if p0 is not None and p0["spec"] != ["SKIP"] and p0["impl"] != p0["spec"]:
+        if p0 is not None and p0["spec"] != ["SKIP"] and public(p0["impl"]) != p0["spec"]:
             small = shrink(ctx, p0)
             v.update({"input": small["src"], "expected": small["spec"], "actual": small["impl"],
                       "wire": wire_of(small)})
@@ -983,7 +1059,7 @@ def run(ctx):
         "markers_compared": sum(len(p["mech_h"]) for p in done),
     }
     if stats["model_fuel"]:
-        ctx.notes.append("%d programs ran out of model fuel (skipped)" % stats["model_fuel"])
+        ctx.notes.append("%d programs ran out of model fuel (skipped): %s" % (stats["model_fuel"], stats.get("fuel_wires", [])[:3]))
     refstats = reference_compare(ctx, done if not quick else done[::2]) if not ctx.violations else {"compared": 0, "skipped": "violations found"}
     sample = next((p for p in done if nontrivial(p)), done[0])
     ctx.cov.update({
